@@ -117,6 +117,12 @@ func (h *c13Hist) newUnit(rng *rand.Rand) *c13Unit {
 		u.Spec.Chunks = []GenChunk{{N: 1 + rng.Intn(300)}}
 		u.Spec.Exit = 1 + rng.Intn(3)
 	case "empty":
+	case "stubborn":
+		// a long-running command that ignores SIGINT: cancelling it needs the runner's escalation to SIGKILL
+		u.Spec.IgnoreInt = true
+		for i := 0; i < 1200; i++ {
+			u.Spec.Chunks = append(u.Spec.Chunks, GenChunk{N: 10, PauseMs: 500})
+		}
 	default: // long
 		k := 3 + rng.Intn(5)
 		for i := 0; i < k; i++ {
@@ -558,6 +564,38 @@ func (h *c13Hist) execute(seed int64, nclients, nops int) {
 		h.count("daemon-restart")
 	}
 	wg.Wait()
+	if h.L.Alive() {
+		// a command that ignores SIGINT is cancelled while the release race runs
+		var sw sync.WaitGroup
+		sw.Add(1)
+		su := h.newUnit(rng)
+		go func() {
+			defer sw.Done()
+			su.Kind = "stubborn"
+			su.Remote = false
+			su.Spec.IgnoreInt = true
+			su.Spec.Exit = 0
+			su.Spec.Chunks = nil
+			for i := 0; i < 1200; i++ { // runs for ten minutes unless it is stopped
+				su.Spec.Chunks = append(su.Spec.Chunks, GenChunk{N: 10, PauseMs: 500})
+			}
+			su.Payload = mustJSON(su.Spec)
+			h.submit(su)
+			if su.ID == "" {
+				return
+			}
+			for i := 0; i < 100; i++ {
+				if st, _, err := unitStatus(h.L, su.ID, 10*time.Second); err == nil && st != nil && st.State == 1 && readPid(su.PidFile) > 0 {
+					break
+				}
+				time.Sleep(100 * time.Millisecond)
+			}
+			h.cancelOp(su)
+			h.count("cancel-stubborn-command")
+		}()
+		h.releaseRace(rng)
+		sw.Wait()
+	}
 	if !h.L.Alive() {
 		fatal, top, _ := h.L.Fatal()
 		h.viol("daemon-died", "daemon exited during the history: "+fatal+" at "+top, map[string]any{"tail": h.L.OutTail(2000)})
@@ -594,6 +632,79 @@ func (h *c13Hist) execute(seed int64, nclients, nops int) {
 		}
 	}
 	h.check()
+}
+
+// releaseRace: a unit is released while other sessions keep asking for it; the unit directory is
+// padded with files (behind the daemon's back) so that its removal takes a little while. Once the
+// release has been acknowledged the unit must be unknown, and stay unknown.
+func (h *c13Hist) releaseRace(rng *rand.Rand) {
+	for round := 0; round < 2; round++ {
+		u := h.newUnit(rng)
+		u.Kind = "instant"
+		u.Remote = false
+		u.Spec.Chunks = []GenChunk{{N: 100}}
+		u.Spec.Exit = 0
+		u.Payload = mustJSON(u.Spec)
+		h.submit(u)
+		if u.ID == "" {
+			return
+		}
+		for i := 0; i < 100; i++ {
+			if st, _, err := unitStatus(h.L, u.ID, 10*time.Second); err == nil && st != nil && ctl.Final(st.State) {
+				break
+			}
+			time.Sleep(100 * time.Millisecond)
+		}
+		dir := filepath.Join(h.L.DataDir(), u.ID)
+		for i := 0; i < 400; i++ {
+			_ = os.WriteFile(filepath.Join(dir, fmt.Sprintf("pad%03d", i)), []byte("x"), 0o600)
+		}
+		stop := make(chan struct{})
+		var pw sync.WaitGroup
+		for p := 0; p < 4; p++ {
+			pw.Add(1)
+			go func(p int) {
+				defer pw.Done()
+				for {
+					select {
+					case <-stop:
+						return
+					default:
+					}
+					if p%2 == 0 {
+						_, _ = ctlLine(h.L, "work status "+u.ID, 10*time.Second)
+					} else {
+						_, _ = ctlLine(h.L, "work list "+u.ID, 10*time.Second)
+					}
+				}
+			}(p)
+		}
+		time.Sleep(30 * time.Millisecond)
+		reply, err := ctlLine(h.L, "work release "+u.ID, 60*time.Second)
+		time.Sleep(100 * time.Millisecond)
+		close(stop)
+		pw.Wait()
+		h.count("release-under-queries")
+		if err != nil || !strings.Contains(reply, `"released"`) {
+			continue
+		}
+		// acknowledged: from now on the unit must be unknown (checked three times, half a second apart)
+		for k := 0; k < 3; k++ {
+			if l, err := ctlLine(h.L, "work status "+u.ID, 15*time.Second); err == nil && !strings.HasPrefix(l, "ERROR") {
+				h.viol("release:still-known:under-queries", fmt.Sprintf("unit %s was acknowledged as released while other sessions were asking for it; %d ms later `work status` still answers %s", u.ID, k*500, trunc200(l)), nil)
+				break
+			}
+			if m, _, err := listUnits(h.L, 15*time.Second); err == nil && m[u.ID] != nil {
+				h.viol("release:still-known:under-queries", fmt.Sprintf("unit %s was acknowledged as released while other sessions were asking for it; %d ms later it is still in `work list`", u.ID, k*500), nil)
+				break
+			}
+			time.Sleep(500 * time.Millisecond)
+		}
+		u.mu.Lock()
+		u.released = true
+		u.relSeq = h.tick()
+		u.mu.Unlock()
+	}
 }
 
 func (h *c13Hist) check() {
